@@ -110,6 +110,9 @@ CORPUS = [
       expect=[('C19.U', 'hmc.build_hmc::constraints-removed-over-the-whole-configuration')]),
     T('c19-time-tree-prior-without-clock-accepted', EV, "    if arg.clock is None and (\n        arg.coalescent is not None or arg.birth_death is not None\n    ):", "    if False and (\n        arg.coalescent is not None or arg.birth_death is not None\n    ):",
       expect=[('C19.R', 'TransformedParameter.parameters.loc::tree.root_height@create_constant_birth_death')]),
+    T('c19-bdsk-grid-not-required', EV, '    if arg.birth_death == "bdsk" and arg.grid is None:\n        parser.error("bdsk birth-death model requires the grid argument")\n', '', expect=[('C19.G', 'create_bdsk::full=[arg.grid]')]),
+    T('c19-benign-bdsk-grid-required-elsewhere', EV, '    if arg.birth_death == "bdsk" and arg.grid is None:\n        parser.error("bdsk birth-death model requires the grid argument")\n',
+      '    if arg.grid is None and arg.birth_death is not None and arg.birth_death == "bdsk":\n        parser.error("--grid is required by bdsk")\n', benign=True),
 ]
 for m in CORPUS:
     if m.id == 'c19-transform-string-typo':
